@@ -27,6 +27,9 @@ def main():
     prop = args.prop.upper()
     seed = int(os.environ.get("VERIF_SEED", "0"))
     os.environ.setdefault("TZ", "UTC")
+    # exceptions raised inside __del__ of filesystem objects under test (e.g. a write-mode archive
+    # finalised at garbage collection) are not part of any verdict: keep them out of the output
+    sys.unraisablehook = lambda *a: None
     try:
         mod = importlib.import_module("props.%s" % prop.lower())
     except ImportError:
